@@ -8,7 +8,7 @@ dst=/verif/seeded/$id/$m
 cd /repo || exit 2
 if [ -n "$(git status --porcelain)" ]; then echo "/repo not clean"; exit 2; fi
 if ! git apply --check $src/patch.diff 2>/dev/null; then
-  if ! git apply --3way $src/patch.diff >/dev/null 2>&1; then echo "SEED $id/$m patch does not apply to current HEAD"; git checkout -q -- . ; exit 3; fi
+  if ! git apply --3way $src/patch.diff >/dev/null 2>&1; then echo "SEED $id/$m patch does not apply to current HEAD"; git reset -q --hard HEAD; exit 3; fi
   git reset -q
 fi
 git apply $src/patch.diff 2>/dev/null
